@@ -46,7 +46,18 @@ namespace options
     class user_input
     {
     public:
-        user_input(const std::string& arg) : arg_(arg)
+        struct unchecked_t
+        {
+        };
+
+        user_input(const std::string& arg) : user_input(arg, unchecked_t())
+        {
+            check_syntax();
+        }
+
+        // Does not check the syntax of the argument. Whether an argument needs to be well-formed
+        // is only known while parsing: everything after "--" is a positional whatever it looks like.
+        user_input(const std::string& arg, unchecked_t) : arg_(arg)
         {
             auto sep = arg_.find("=");
             if (sep != std::string::npos)
@@ -58,14 +69,17 @@ namespace options
             {
                 name_ = arg_;
             }
+        }
 
+        void check_syntax() const
+        {
             if (!is_value() && !is_double_dash())
             {
                 // only the name part has a syntax; a value after '=' may hold any bytes,
                 // including line breaks, which '.' would not match
                 if (!std::regex_match(name_, std::regex("-{1,2}[^-=]+[^=]*")))
                 {
-                    raise<parsing_error>("The user input couldn't be parsed. (", arg, ")");
+                    raise<parsing_error>("The user input couldn't be parsed. (", arg_, ")");
                 }
             }
         }
